@@ -1030,3 +1030,134 @@ Proof.
     intros j Hj. apply in_seq. specialize (Hb j Hj). lia. }
   apply Hincl, in_seq. lia.
 Qed.
+
+(* ================================================================== *)
+(* final statements, over all binary trees that use every tensor exactly once *)
+
+Theorem dp_optimal nodes app szs o so fuel cap sc bp :
+  wf_procb nodes app szs = true -> obj_ok o -> 1 <= length nodes ->
+  dp_result app szs o so (length nodes) nodes fuel cap = Some (sc, bp) ->
+  (exists t, full_tree (length nodes) t /\ admissible nodes app so t = true /\
+             tscore nodes app szs o t = sc /\ bitpath t = bp) /\
+  (forall t', full_tree (length nodes) t' -> admissible nodes app so t' = true ->
+              (sc <= tscore nodes app szs o t')%Z).
+Proof.
+  intros Hwf Ho Hn Hr. destruct (wf_procb_spec _ _ _ Hwf) as (H1 & H2 & H3).
+  destruct (dp_result_optimal nodes app szs o so H1 H2 H3 Ho fuel cap sc bp Hn Hr) as [(t & S & Hv & Hnl & Ha & Hs & Hp) Hmin].
+  split.
+  - exists t. split; [exact (vtree_full _ _ _ Hv Hnl)|]. auto.
+  - intros t' Hf Ha'. destruct (full_tree_vtree _ _ Hf) as [Hv' Hn']. exact (Hmin t' _ Hv' Hn' Ha').
+Qed.
+
+Theorem optimize_optimal_is_optimal net o so fuel cap sc ssa :
+  let p := proc_init net in
+  wf_procb (p_nodes p) (p_app p) (p_sizes p) = true -> obj_ok o -> 1 <= length (p_nodes p) ->
+  optimize_optimal net o so fuel cap = Some (sc, ssa) ->
+  (exists t, full_tree (length (p_nodes p)) t /\ admissible (p_nodes p) (p_app p) so t = true /\
+             tscore (p_nodes p) (p_app p) (p_sizes p) o t = sc) /\
+  (forall t', full_tree (length (p_nodes p)) t' -> admissible (p_nodes p) (p_app p) so t' = true ->
+              (sc <= tscore (p_nodes p) (p_app p) (p_sizes p) o t')%Z).
+Proof.
+  intros p Hwf Ho Hn. unfold optimize_optimal, optimal_connected. fold p. rewrite seq_length.
+  destruct (dp_result (p_app p) (p_sizes p) o so (length (p_nodes p)) (p_nodes p) fuel cap) as [[sc' bp]|] eqn:E;
+    [|discriminate].
+  intros H; inversion H; subst sc'. clear H.
+  destruct (dp_optimal _ _ _ _ _ _ _ _ _ Hwf Ho Hn E) as [(t & Hf & Ha & Hs & _) Hmin].
+  split; [exists t; auto | exact Hmin].
+Qed.
+
+Theorem dp_terminates_full nodes app szs o so t0 f cap :
+  wf_procb nodes app szs = true -> obj_ok o -> 1 <= length nodes ->
+  full_tree (length nodes) t0 -> admissible nodes app so t0 = true ->
+  (tscore nodes app szs o t0 <= cap * 2 ^ Z.of_nat f)%Z ->
+  exists tabs cap', dp_loop app szs o so (length nodes) (S f) cap (dp_init (length nodes) nodes) = Some (tabs, cap')
+                    /\ nth (length nodes) tabs [] <> [].
+Proof.
+  intros Hwf Ho Hn Hf Ha Hb. destruct (wf_procb_spec _ _ _ Hwf) as (H1 & H2 & H3).
+  destruct (full_tree_vtree _ _ Hf) as [Hv Hnl].
+  exact (dp_terminates nodes app szs o so H1 H2 H3 Ho t0 _ f cap Hn Hv Hnl Ha Hb).
+Qed.
+
+(* with search_outer every tree is admissible; the left comb always exists *)
+Fixpoint comb (k : nat) : tree :=
+  match k with 0 => Leaf 0 | S k' => Node (comb k') (Leaf (S k')) end.
+
+Lemma comb_leaves k : leaves (comb k) = seq 0 (S k).
+Proof.
+  induction k as [|k IH]; [reflexivity|]. cbn [comb leaves]. rewrite IH.
+  symmetry. apply (seq_S (S k) 0).
+Qed.
+
+Lemma comb_full k : full_tree (S k) (comb k).
+Proof.
+  unfold full_tree. rewrite comb_leaves. split; [apply seq_NoDup|]. intros i. rewrite in_seq. lia.
+Qed.
+
+Theorem dp_terminates_search_outer nodes app szs o f cap :
+  wf_procb nodes app szs = true -> obj_ok o -> 1 <= length nodes ->
+  (tscore nodes app szs o (comb (length nodes - 1)) <= cap * 2 ^ Z.of_nat f)%Z ->
+  exists tabs cap', dp_loop app szs o true (length nodes) (S f) cap (dp_init (length nodes) nodes) = Some (tabs, cap')
+                    /\ nth (length nodes) tabs [] <> [].
+Proof.
+  intros Hwf Ho Hn Hb.
+  apply (dp_terminates_full nodes app szs o true (comb (length nodes - 1)) f cap Hwf Ho Hn); [|reflexivity|exact Hb].
+  replace (length nodes) with (S (length nodes - 1)) at 1 by lia. apply comb_full.
+Qed.
+
+(* the six cost functions, one by one *)
+Lemma cost_fn_objective nodes app szs o S1 S2 a b :
+  (forall j, j < length app -> cnt_all nodes j <= appn app j) -> N.land S1 S2 = 0%N ->
+  con_cost app szs o (fst (merge_legs (legs_of nodes app S1) (legs_of nodes app S2))) a b =
+  (legs_of nodes app (N.lor S1 S2), combine_sc o a b (step_cost nodes app szs o S1 S2)).
+Proof. intros H Hd. apply con_cost_spec; assumption. Qed.
+
+(* wrappers with the executable hypothesis *)
+Theorem dp_tables_sound_wf nodes app szs o so fuel cap tabs cap' :
+  wf_procb nodes app szs = true -> obj_ok o -> 1 <= length nodes ->
+  dp_loop app szs o so (length nodes) fuel cap (dp_init (length nodes) nodes) = Some (tabs, cap') ->
+  forall m S e, In (S, e) (nth m tabs []) ->
+  exists t, vtree (length nodes) t S /\ nleaves t = m /\ admissible nodes app so t = true /\
+            e_legs e = legs_of nodes app S /\ e_score e = tscore nodes app szs o t /\ e_path e = bitpath t.
+Proof.
+  intros Hwf Ho Hn E m S e Hin. destruct (wf_procb_spec _ _ _ Hwf) as (H1 & H2 & H3).
+  exact (dp_tables_sound nodes app szs o so H1 H2 H3 Ho fuel cap tabs cap' Hn E m (S, e) Hin).
+Qed.
+
+Theorem dp_level_invariant_wf nodes app szs o so C tabs m :
+  wf_procb nodes app szs = true -> obj_ok o -> 1 <= length nodes ->
+  Inv nodes app szs o so tabs -> nth (length nodes) tabs [] = [] -> 1 <= m <= length nodes ->
+  let tabs' := full_pass app szs o so (length nodes) C tabs in
+  Inv nodes app szs o so tabs' /\
+  (forall t S, vtree (length nodes) t S -> nleaves t = m -> admissible nodes app so t = true ->
+               (tscore nodes app szs o t <= C)%Z ->
+               exists e, In (S, e) (nth m tabs' []) /\ (e_score e <= tscore nodes app szs o t)%Z) /\
+  (forall x, In x (nth (length nodes) tabs' []) -> (e_score (snd x) <= C)%Z).
+Proof.
+  intros Hwf Ho Hn HI E Hm. destruct (wf_procb_spec _ _ _ Hwf) as (H1 & H2 & H3).
+  cbv zeta. eapply dp_level_invariant; eassumption.
+Qed.
+
+Theorem dp_init_Inv nodes app szs o so :
+  wf_procb nodes app szs = true -> 1 <= length nodes ->
+  Inv nodes app szs o so (dp_init (length nodes) nodes).
+Proof.
+  intros Hwf Hn. destruct (wf_procb_spec _ _ _ Hwf) as (H1 & H2 & H3).
+  eapply LI_init; eassumption.
+Qed.
+
+(* the loop stops at the first cap C for which level n is non-empty; then every level-n entry
+   is <= C and level n covers every admissible tree of score <= C: nothing cheaper was sieved *)
+Theorem sieve_first_hit nodes app szs o so fuel cap tabs cap' :
+  wf_procb nodes app szs = true -> obj_ok o -> 1 <= length nodes ->
+  dp_loop app szs o so (length nodes) fuel cap (dp_init (length nodes) nodes) = Some (tabs, cap') ->
+  nth (length nodes) tabs [] <> [] /\
+  exists C, (forall x, In x (nth (length nodes) tabs []) -> (e_score (snd x) <= C)%Z) /\
+            (forall t S, vtree (length nodes) t S -> nleaves t = length nodes ->
+                         admissible nodes app so t = true -> (tscore nodes app szs o t <= C)%Z ->
+                         exists e, In (S, e) (nth (length nodes) tabs []) /\
+                                   (e_score e <= tscore nodes app szs o t)%Z).
+Proof.
+  intros Hwf Ho Hn E. destruct (wf_procb_spec _ _ _ Hwf) as (H1 & H2 & H3).
+  assert (HL : LI nodes app szs o so (dp_init (length nodes) nodes)) by (eapply LI_init; eassumption).
+  destruct (dp_loop_LI nodes app szs o so H2 H3 Ho Hn fuel cap _ _ HL E) as [[_ HC] Hne]. cbn [fst] in *. split; [exact Hne|]. exact (HC Hne).
+Qed.
